@@ -189,6 +189,7 @@ class C01(Check):
         ctx.phase(self.corr_sercost, ctx)
         ctx.phase(self.oracle_streams, ctx)
         ctx.phase(self.oracle_validation, ctx)
+        ctx.phase(self.oracle_lexemes, ctx)
         ctx.phase(self.oracle_depth, ctx)
         ctx.phase(self.oracle_width, ctx)
 
@@ -332,6 +333,18 @@ class C01(Check):
                     for tl in tails:
                         cases.append({'kind': 'validation', 'text': 'a{%s:%s%s}' % (name, G.VALID_UNITS[u](n), tl),
                                       'comments': True, 'validate': True, 'fetch': 'none'})
+        self.judge(ctx, cases, limit=15.0)
+
+    # -- oracle: lexemes that can be split in many ways ------------------------------------------------
+    def oracle_lexemes(self, ctx):
+        """n repeated units after an opener that is never closed: the tokenizer's productions are tried by a
+        backtracking matcher, and a production that can split the same text in several ways needs 2^n steps when it
+        fails at the end (found in the string and url() productions: 6e7cc00's sibling fix)"""
+        rng = ctx.sub_rng('lexemes')
+        cases = []
+        for n in ([48] if ctx.tier_counts == 'quick' else [24, 48, 96, 400]):
+            for t in G.lexeme_cases(n, rng, per=(12 if ctx.tier_counts == 'quick' else None)):
+                cases.append({'kind': 'lexeme', 'text': t, 'comments': True, 'validate': True, 'fetch': 'none'})
         self.judge(ctx, cases, limit=15.0)
 
     # -- oracle: depth ---------------------------------------------------------------------------------
